@@ -190,6 +190,6 @@ Print Assumptions C20_leaf_is_printable_ascii_domain.
 From Coq Require Import List String.
 Import ListNotations.
 Theorem C20_leaf_reads_strings :
-  Leaf.L_strings_is_printable_ascii_args = ["byte : u8"%string].
+  Leaf.L_strings_is_printable_ascii_args = ["arg1 : u8"%string].
 Proof. exact LeafStrings.leaf_reads_strings. Qed.
 Print Assumptions C20_leaf_reads_strings.
